@@ -45,6 +45,20 @@ fn main() {
             Err(_) => ("panic", -1),
         };
         tr.emit(json!({"e": "checksum", "f": bytes_json(&f), "out": out, "v": v}));
+        // the same frame at the head of a longer buffer (as the demodulator's scorer calls it):
+        // the checksum is that of the first `bits` bits only
+        if i % 2 == 0 {
+            let extra = 1 + rng.below(9) as usize;
+            let mut g = f.clone();
+            g.extend((0..extra).map(|_| rng.next() as u8));
+            let bits = f.len() * 8;
+            let (out, v) = match catch_unwind(move || modes_checksum(&g, bits)) {
+                Ok(Ok(v)) => ("ok", if (v as u64) < (1u64 << 31) { v as i64 } else { -2 }),
+                Ok(Err(_)) => ("err", -1),
+                Err(_) => ("panic", -1),
+            };
+            tr.emit(json!({"e": "checksum", "f": bytes_json(&f), "trailing": extra, "out": out, "v": v}));
+        }
     }
     // valid DF17 frames (type codes whose every bit pattern is a legal message) and corruptions
     let tcs: [u64; 15] = [0, 1, 2, 3, 4, 9, 10, 11, 12, 13, 14, 15, 16, 17, 18];
